@@ -2,7 +2,7 @@
 which predicates are evaluated on the implementation's trace, and what is trusted."""
 import collections, hashlib, json, os
 from common import *
-import daemon, preds, trace, hostlist, redfish, speclayer
+import daemon, preds, trace, hostlist, redfish, speclayer, libpm, config
 
 TRUSTED_BASE = [
     'Lean 4.33.0 kernel (thorough tier: re-checked by leanchecker)',
@@ -115,7 +115,7 @@ def D(*a, **k):
 
 
 PROPS['C01'] = dict(layers=[D(P.p_c01, profile=dict(faults=0.4))], planned=['C01_validated (alias expansion)', 'C01_history_free at daemon level'])
-PROPS['C02'] = dict(layers=[D(P.p_c02_c03, profile=dict(faults=0.5))], planned=['C02_sound end-to-end (102 ⇒ every target commanded and answered ok)', 'C02_cli'])
+PROPS['C02'] = dict(layers=[D(P.p_c02_c03, P.p_c02_wire, profile=dict(faults=0.5))], planned=['C02_sound end-to-end (102 ⇒ every target commanded and answered ok)', 'C02_cli'])
 PROPS['C03'] = dict(layers=[D(P.p_c02_c03, P.p_c03_justified, profile=dict(faults=0.5))], planned=['C03_justified over whole runs', 'C03_no_memory'])
 PROPS['C04'] = dict(layers=[D(P.p_c04, P.p_c15)], planned=['C04_one_reply', 'C04_no_wedge', 'C04_tenure', 'C04_bound_partial'])
 PROPS['C06'] = dict(layers=[D(P.p_c04, P.p_c15, profile=dict(fatal=0.03, faults=1.5, maxclients=6), deaths=client_deaths)], planned=['C06_total over lines >= CP_LINEMAX (203)', 'C06_reap'])
@@ -123,10 +123,13 @@ PROPS['C07'] = dict(layers=[D(P.p_c20, profile=dict(garbage=0.08, pF6=0.03, calm
 PROPS['C08'] = dict(layers=[D(P.p_c08, P.p_c01, profile=dict(faults=0.5))], planned=['C08_refines without the nesting bound of the mirror (innerLoop 64)', 'composition over postPoll sequences with reconnects'])
 PROPS['C09'] = dict(layers=[D(P.p_c10, profile=dict(garbage=0.05))], planned=['cbuf_refines (index-level model of cbuf.c)', 'buffer capacity / overflow_drop'])
 PROPS['C10'] = dict(layers=[D(P.p_c10)], planned=['C10_head_only', 'C10_transcript', 'C10_fifo'])
-PROPS['C12'] = dict(layers=[D(P.p_c12, P.p_c04, profile=dict(pF6=0.02, calm=0.3))], planned=['C12_ioerr', 'C12_recover_partial'])
+PROPS['C12'] = dict(layers=[D(P.p_c12, P.p_c12_disconnect, P.p_c04, profile=dict(pF6=0.02, calm=0.3))], planned=['C12_ioerr', 'C12_recover_partial'])
+PROPS['C13'] = dict(layers=[config.ConfigLayer()], planned=['C13_listings at daemon level (nodes / device replies) — the replies themselves are mirrored in Pm.Daemon and compared on every run'])
 PROPS['C14'] = dict(layers=[hostlist.HostlistLayer()], planned=['C14_roundtrip', 'C14_sort_perm', 'C14_three_hops'])
+PROPS['C19'] = dict(layers=[redfish.RedfishLayer()], planned=['C19_bad_input (setplugs argument checks, malformed ranges) on a model of the command parser'])
 PROPS['C20'] = dict(layers=[D(P.p_c20, profile=dict(pF6=0.02, maxclients=6))], planned=['C20_refcount', 'C20_objects', 'C20_shutdown (signal path / teardown not modelled yet)'])
 PROPS['C15'] = dict(layers=[D(P.p_c15, P.p_c04, profile=dict(garbage=0.06, maxclients=6))], planned=['C15_stream over whole runs (needs a ghost record of bytes written in earlier passes)', 'cleanliness of the data-carrying lines through the hostlist mirror'])
+PROPS['C16'] = dict(layers=[libpm.LibPmLayer()], planned=['memory safety of the remaining C is observed under ASan, not proved'])
 PROPS['C17'] = dict(layers=[speclayer.SpecLayer()], planned=['specOK_sound: the static predicate implies no send reaches an undefined conversion and every $N read is a defined group, over the interpreter model'])
 PROPS['C11'] = dict(layers=[D(P.p_c11, profile=dict(maxclients=6))], planned=['C11_routing', 'C11_departure', 'C11_backpressure'])
 
@@ -146,3 +149,78 @@ def layer_by_name(n):
     return None
 
 NOT_YET = {}
+
+
+class PairedLayer:
+    """C05: two runs of the same scheduled scenario, device B healthy vs sick; everything that concerns device A and the
+    clients whose requests name only A's nodes must be identical, pass for pass.  Both runs are also compared with the model."""
+    name = 'daemon-paired'
+
+    def __init__(self, quick=(16, 500), thorough=(96, 1200)):
+        self.quick = quick; self.thorough = thorough
+
+    def build(self): daemon.build()
+
+    def _one(self, args):
+        seed, N = args
+        V = []; diffs = []; st = collections.Counter()
+        sims = [daemon.simulate_sched(seed, N, False), daemon.simulate_sched(seed, N, True)]
+        trs = []
+        for sim in sims:
+            chunks = daemon.lean_side(sim)
+            for d in daemon.compare(sim, chunks):
+                d['replay'] = dict(layer=self.name, seed=seed, N=N, sick=sim['sick_mode'], at=d['at']); diffs.append(d)
+            trs.append(trace.parse(sim))
+            if sim['died']: V.append(dict(sig='C05 daemon killed: ' + daemon.death_class(sim['stderr']), at=len(sim['ops']) - 1, detail=sim['stderr'][-800:]))
+        st['sick mode ' + sims[1]['sick_mode']] += 1
+        views = [preds.client_views(t) for t in trs]
+        for c in sims[0]['clients']:
+            st['clients ' + c['kind']] += 1
+            if c['kind'] != 'A': continue
+            a = views[0].get(c['fd']); b = views[1].get(c['fd'])
+            if a is None and b is None: continue
+            st['A-only clients compared'] += 1
+            ea = a.events if a else []; eb = b.events if b else []
+            if ea != eb:
+                k = next((i for i, (x, y) in enumerate(zip(ea, eb)) if x != y), min(len(ea), len(eb)))
+                V.append(dict(sig='C05 a client whose targets lie on the healthy device sees a different conversation when another device is sick',
+                              fd=c['fd'], sick=sims[1]['sick_mode'], first_difference=dict(healthy=repr(ea[k])[:200] if k < len(ea) else None, sick=repr(eb[k])[:200] if k < len(eb) else None), at=(ea[k][0] if k < len(ea) else eb[k][0] if k < len(eb) else 0)))
+        # device A's own transcript (what it was sent, pass by pass)
+        def a_transcript(t):
+            out = []
+            for p in t:
+                for fd, w in p.writes.items():
+                    if 3000 <= fd < 5000 and w['data']: out.append((p.i, fd, w['data']))
+            return out
+        ta, tb = a_transcript(trs[0]), a_transcript(trs[1])
+        st['device A writes compared'] += len(ta)
+        if ta != tb:
+            k = next((i for i, (x, y) in enumerate(zip(ta, tb)) if x != y), min(len(ta), len(tb)))
+            V.append(dict(sig='C05 the healthy device is addressed differently when another device is sick', sick=sims[1]['sick_mode'],
+                          healthy=repr(ta[k])[:160] if k < len(ta) else None, sick_run=repr(tb[k])[:160] if k < len(tb) else None, at=(ta[k][0] if k < len(ta) else 0)))
+        for v in V: v['replay'] = dict(layer=self.name, seed=seed, N=N, at=v.get('at', 0))
+        return dict(passes=sum(len(s['ops']) for s in sims), diffs=diffs, violations=V, stats=st,
+                    sample=dict(seed=seed, sick_mode=sims[1]['sick_mode'], clients=[(c['kind'], [l.decode('latin1') for o, l in c['lines']][:3]) for c in sims[0]['clients']][:4]))
+
+    def run(self, prop, tier, seed):
+        ns, N = self.quick if tier == 'quick' else self.thorough if tier == 'thorough' else (self.quick[0] * 4, self.quick[1])
+        self.build()
+        rs = pmap(self._one, [(seed * 40009 + k * 613 + 29, N) for k in range(ns)])
+        st = collections.Counter()
+        for r in rs: st.update(r['stats'])
+        return dict(name=self.name, evaluations=sum(r['passes'] for r in rs), distinct=sum(r['passes'] for r in rs) // 2, samples=[rs[0]['sample']], stats=dict(sorted(st.items())),
+                    diffs=[d for r in rs for d in r['diffs']], violations=[v for r in rs for v in r['violations']],
+                    rule='one evaluation = one daemon pass; each scenario (clock, client connections and every byte they send fixed in advance; device A answers from its own PRNG) is run twice, device B healthy and device B sick (silent / garbage / partial lines / flood / close / refuse), and the A-only clients\' conversations and device A\'s transcript are compared pass for pass; distinct = passes of the healthy run')
+
+    def replay(self, rp, v):
+        for sick in (False, True):
+            sim = daemon.simulate_sched(rp['seed'], rp['N'], sick)
+            at = rp.get('at', 0)
+            print('=== device B', sim['sick_mode'])
+            for i in range(max(0, at - 2), min(len(sim['ops']), at + 2)):
+                print('--- pass', i, sim['ops'][i][:300]); print(*sim['couts'][i][:30], sep='\n   ')
+        return 1
+
+
+PROPS['C05'] = dict(layers=[PairedLayer()], planned=['C05_noninterference through a general client phase', 'equality up to renaming of descriptor numbers', 'stutter for the other waiting states'])
+PROPS.move_to_end('C05', last=False)
